@@ -34,7 +34,7 @@ RULE = (
 )
 ASSUMPTIONS = ["models are built from mxlpy.fns only (the must-convert class of the statement)"]
 
-NETWORKS = ["chain", "branch", "cycle"]
+NETWORKS = ["chain", "branch", "cycle", "names"]
 COEFS = ["num", "pname", "pcomp", "scomp"]
 METHODS = ["LSODA", "Radau", "BDF"]
 STATES = [[0.5, 2.0, 1.5], [2.0, 0.5, 3.0], [1.0, 1.0, 1.0], [3.0, 0.25, 0.5]]
@@ -45,6 +45,8 @@ def build_model(c, stiff=False):
 
     m = Model()
     net = c["net"]
+    if net == "names":
+        return build_names_model(c, stiff)
     m.add_variables({"x1": 1.0, "x2": 0.5})
     if net == "branch":
         m.add_variable("x3", 0.25)
@@ -95,6 +97,35 @@ def build_model(c, stiff=False):
     return m
 
 
+def build_names_model(c, stiff):
+    """Components are called like the shipped rate laws' own parameters (s1, s2, x, y, k) and are passed in
+    shifted or swapped positions."""
+    from mxlpy import Derived, Model, fns
+
+    m = Model()
+    m.add_variables({"s1": 1.0, "s2": 0.5, "y": 0.75})
+    if c["untouched"]:
+        m.add_variable("u", 2.0)
+    m.add_parameters({"kin": 2.0, "k": 1000.0 if stiff else 1.5, "kf": 0.75, "kr": 0.25, "kc": 2.0, "x": 1.25})
+    coef = {"num": 2.0, "pname": "kc", "pcomp": Derived(fn=fns.twice, args=["kc"]), "scomp": Derived(fn=fns.add, args=["s1", "kc"])}[c["coef"]]
+    for name in c["dorder"]:
+        # d1 = y / x (div(x, y) with swapped names), d2 = minus(x, y) called as (y, d1), d3 = add(d2, kf)
+        fn, args = {"d1": (fns.div, ["y", "x"]), "d2": (fns.minus, ["y", "d1"]), "d3": (fns.add, ["d2", "kf"])}[name]
+        m.add_derived(name, fn, args=args)
+    nd = len(c["dorder"])
+    extra = {0: "kf", 1: "d1", 2: "d2", 3: "d3"}[nd]
+    m.add_reaction("v0", fns.constant, args=["kin"], stoichiometry={"s1": 1})
+    # mass_action_2s(s1, s2, k) called with (s2, s1, k): swapped own parameter names
+    m.add_reaction("v1", fns.mass_action_2s, args=["s2", "s1", "kf"], stoichiometry={"s1": -1, "s2": coef})
+    # mass_action_1s_1p(s1, p1, kf, kr) called with (s2, x, kr, kf): shifted / swapped
+    m.add_reaction("v2", fns.mass_action_1s_1p, args=["s2", "y", "kr", "kf"], stoichiometry={"s2": -1, "y": 1})
+    m.add_reaction("v3", fns.mass_action_1s, args=["y", "k"], stoichiometry={"y": -1})
+    m.add_reaction("v4", fns.mass_action_2s, args=["s2", extra, "kr"], stoichiometry={"s2": -1})
+    if c["time"]:
+        m.add_reaction("vt", fns.mul, args=["time", "kr"], stoichiometry={"s1": 1})
+    return m
+
+
 def generate(tier):
     cases = []
     dorders = [[]]
@@ -103,12 +134,16 @@ def generate(tier):
     flags = list(it.product([0, 1], repeat=4)) if tier == "thorough" else [
         (0, 0, 0, 0), (1, 0, 0, 0), (0, 1, 0, 0), (0, 0, 1, 0), (0, 0, 0, 1), (1, 1, 1, 1)]
     for net, dorder, coef, (untouched, time, ia, ratedep) in it.product(NETWORKS, dorders, COEFS, flags):
+        if net == "names" and (ia or ratedep):
+            continue
         base = {"net": net, "dorder": dorder, "coef": coef, "untouched": untouched, "time": time, "ia": ia, "ratedep": ratedep}
         cases.append({**base, "mode": "symbolic"})
     # simulation with Jacobian: fewer shapes (each run integrates a stiff system three times)
     sim_flags = flags if tier == "thorough" else [(0, 0, 0, 0), (1, 1, 0, 0), (0, 0, 1, 1)]
     sim_orders = dorders if tier == "thorough" else [[], ["d1"], ["d2", "d1"], ["d3", "d1", "d2"]]
     for net, dorder, coef, (untouched, time, ia, ratedep), method in it.product(NETWORKS, sim_orders, COEFS, sim_flags, METHODS):
+        if net == "names" and (ia or ratedep):
+            continue
         cases.append({"net": net, "dorder": dorder, "coef": coef, "untouched": untouched, "time": time, "ia": ia,
                       "ratedep": ratedep, "mode": f"simulate:{method}"})
     return cases
@@ -148,7 +183,7 @@ def check_symbolic(case, nt):
     for setting in (0, 1):
         m = build_model(case)
         if setting == 1:
-            m.update_parameters({"k1": 0.5, "k2": 1.25, "kc": 3.0, "kin": 1.0})
+            m.update_parameters({"k1": 0.5, "k2": 1.25, "kc": 3.0, "kin": 1.0} if case["net"] != "names" else {"k": 0.5, "kf": 1.25, "kc": 3.0, "x": 0.5})
         try:
             sm = to_symbolic_model(m)
         except Exception as exc:  # noqa: BLE001
@@ -192,6 +227,8 @@ def check_symbolic(case, nt):
                                            detail=f"J[{var_names[i]},{var_names[j]}] at {state}, t={t}: symbolic {float(val)} numeric {float(Jn[i, j])} | {txt}")
     # one symbolic model, another parameter setting: bind the parameter symbols to the values of a model
     # updated to that setting ("at every state and parameter setting")
+    if case["net"] == "names":
+        return outcome(True, "converted-equal", nontrivial=nt)
     m0 = build_model(case)
     sm0 = to_symbolic_model(m0)
     m1 = build_model(case)
